@@ -93,6 +93,9 @@ def _gen_case(rng, tier, i):
            [["Y", "Z"], ["a_yz"]], [["X"], ["d_x"]]]
     rng.shuffle(reg)
     case["metric_registry"] = reg[: rng.randint(4, 6)]
+    if rng.random() < 0.35:
+        # only single-axis metrics: the product has three factors (their order shows in the result's dimensions)
+        case["metric_registry"] = [r for r in reg if len(r[0]) == 1]
     case["metric_array_dims"] = ["xc", "yc", "zc"]
     qs = [["X", "Y", "Z"], ["Z", "Y", "X"], ["Y", "Z", "X"]]
     case["metric_queries"] = qs
